@@ -317,6 +317,7 @@ package types
 //@ vars (types.MsgBindService).ValidateBasic: msg=github.com/irismod/service/types.MsgBindService#0 err=error#0 err=error#1 err=error#2 err=error#3 err=error#4 err=error#5
 //@ props C20 C03
 //@ ensures [C20,C03] deposit_has_no_negative_amount: err == NoErr ==> (forall d Str :: {amt(msg.Deposit, d)} amt(msg.Deposit, d) >= 0)
+//@ ensures [C20,C15] provider_present: err == NoErr ==> len(msg.Provider) > 0
 
 //@ func (MsgUpdateServiceBinding).ValidateBasic
 //@ vars (types.MsgUpdateServiceBinding).ValidateBasic: msg=github.com/irismod/service/types.MsgUpdateServiceBinding#0 err=error#0 err=error#1 err=error#2 err=error#3 err=error#4
@@ -346,7 +347,8 @@ package types
 
 //@ func ValidateProvider
 //@ vars types.ValidateProvider: provider=github.com/cosmos/cosmos-sdk/types.AccAddress#0
-//@ trusted
+//@ props C20 C15 C16
+//@ ensures present: err == NoErr ==> len(provider) > 0
 
 //@ func ValidateOwner
 //@ vars types.ValidateOwner: owner=github.com/cosmos/cosmos-sdk/types.AccAddress#0
